@@ -74,16 +74,21 @@ func init() {
 			problem("backend.QueryMaxLimit not found")
 			maxLimit = 0
 		}
-		shape := func(rel, recv, name string) (bool, bool, bool) {
-			fd := funcDecl(parseFile(rel), recv, name)
+		shape := func(dir, recv, name string) (bool, bool, bool) {
+			pk := c03LoadPkg(dir)
+			fd := pk.method(recv, name)
 			if fd == nil {
-				problem("%s: %s.%s not found", rel, recv, name)
+				problem("%s: %s.%s not found", dir, recv, name)
 				return false, false, false
 			}
-			return c03QueryLoopShape(fd)
+			clamp, loop, cache, mentions := c03QueryLoopShape(pk, fd)
+			if !clamp && mentions {
+				problem("%s: %s.%s mentions QueryMaxLimit but the clamp was not recognised (unknown shape)", dir, recv, name)
+			}
+			return clamp, loop, cache
 		}
-		clamp1, loop1, cache1 := shape("pkg/backend/querier.go", "Querier", "Query")
-		clamp2, loop2, cache2 := shape("api/rpc/querier.go", "ServerQuerier", "query")
+		clamp1, loop1, cache1 := shape("pkg/backend", "Querier", "Query")
+		clamp2, loop2, cache2 := shape("api/rpc", "ServerQuerier", "query")
 		l.p("/-- `backend.QueryMaxLimit` -/")
 		l.p("def queryMaxLimit : Nat := %d", maxLimit)
 		l.p("/-- both query loops clamp with `limit > QueryMaxLimit` and run `for limit > 0 && err == nil` -/")
@@ -217,14 +222,15 @@ func init() {
 		l.p("/-- `partition.JIterator.advanceChunk`: when the selector answers end of data the iterator keeps the position its chunk iterator stopped at (proposed repair of F59) -/")
 		l.p("def advanceKeepsIteratorPos : Bool := %s", leanBool(keepsIt))
 		contZero := true
-		for _, q := range [][3]string{{"pkg/backend/querier.go", "Querier", "Query"}, {"api/rpc/querier.go", "ServerQuerier", "query"}} {
-			fd := funcDecl(parseFile(q[0]), q[1], q[2])
+		for _, q := range [][3]string{{"pkg/backend", "Querier", "Query"}, {"api/rpc", "ServerQuerier", "query"}} {
+			pk := c03LoadPkg(q[0])
+			fd := pk.method(q[1], q[2])
 			if fd == nil {
 				problem("%s: %s.%s not found", q[0], q[1], q[2])
 				contZero = false
 				continue
 			}
-			ok, found := c03ContinuationOffsetZero(fd)
+			ok, found := c03ContinuationOffsetZero(pk, fd)
 			if !found {
 				problem("%s: %s.%s: the continuation request (writeQueryRequest / NextQueryRequest) was not recognised", q[0], q[1], q[2])
 			}
